@@ -90,6 +90,7 @@ type simTask struct {
 	fsm                                                 string
 	terminal                                            bool
 	kills, commands                                     int
+	refusedKills                                        int // KILL calls naming it that the master answered with an error (scripted)
 	launchSeq, epoch                                    int
 }
 
@@ -171,6 +172,14 @@ func (m *Master) Trace() []Record {
 	return append([]Record(nil), m.trace...)
 }
 
+// Unacked is the number of status updates (with UUID) the framework has not acknowledged yet
+// (the master re-sends them after the next SUBSCRIBE).
+func (m *Master) Unacked() int {
+	m.mu.Lock()
+	defer m.mu.Unlock()
+	return len(m.unacked)
+}
+
 // Tasks returns the task table in launch order.
 func (m *Master) Tasks() []TaskRecord {
 	m.mu.Lock()
@@ -185,7 +194,7 @@ func (m *Master) tasksLocked() []TaskRecord {
 		info := t.info
 		out = append(out, TaskRecord{TaskID: t.id, Name: t.name, Class: t.class, AgentID: t.agentID, Host: t.host,
 			ExecutorID: t.execID, EnvID: t.envID, ControlMode: t.mode.String(), MesosState: t.state.String(),
-			Terminal: t.terminal, FSM: t.fsm, Kills: t.kills, Commands: t.commands, LaunchSeq: t.launchSeq,
+			Terminal: t.terminal, FSM: t.fsm, Kills: t.kills, RefusedKills: t.refusedKills, Commands: t.commands, LaunchSeq: t.launchSeq,
 			Epoch: t.epoch, FrameworkID: t.fwID, Info: &info})
 	}
 	return out
@@ -271,6 +280,9 @@ func (m *Master) sendOffersLocked() int {
 	var offs []mesos.Offer
 	var ids, hosts []string
 	for _, a := range m.agents {
+		if m.offerWithheld(a) { // offer_withhold.go: nothing is withheld unless WithholdOffers was used
+			continue
+		}
 		if a.Down {
 			continue
 		}
@@ -534,7 +546,14 @@ func (m *Master) dispatch(call *scheduler.Call, streamID string) (int, []func())
 	case scheduler.Call_SUPPRESS:
 		m.suppressed = true
 	case scheduler.Call_KILL:
-		after = m.killLocked(call.GetKill())
+		status, a := m.killLocked(call.GetKill(), &rec)
+		if status != http.StatusAccepted {
+			// scripted refusal (Outcome Undeliverable for EvKill): the master answers the call itself with an error
+			rec.HTTP = status
+			m.recordLocked(rec)
+			return status, nil
+		}
+		after = a
 	case scheduler.Call_MESSAGE:
 		status, a := m.messageLocked(call.GetMessage(), &rec)
 		rec.HTTP = status
@@ -758,13 +777,22 @@ func (m *Master) newTask(ti *mesos.TaskInfo, seq int) *simTask {
 	return t
 }
 
-func (m *Master) killLocked(k *scheduler.Call_Kill) []func() {
+func (m *Master) killLocked(k *scheduler.Call_Kill, rec *Record) (int, []func()) {
 	t := m.tasks[k.GetTaskID().Value]
 	if t == nil || t.terminal {
-		return nil // a real master only logs "cannot kill unknown task"
+		return http.StatusAccepted, nil // a real master only logs "cannot kill unknown task"
+	}
+	// Undeliverable for EvKill (nothing is refused unless a script asks for it): the master answers the KILL call
+	// itself with HTTP 503 — a scheduler-API fault; the task learns nothing and keeps running. The rule is looked at
+	// without being consumed; every other outcome is selected in react, as ever.
+	if m.peekOutcomeLocked(t, EvKill).Kind == Undeliverable {
+		m.outcomeLocked(t, EvKill) // consume (Times)
+		t.refusedKills++
+		rec.MsgDetail = "scripted refusal of the KILL call"
+		return http.StatusServiceUnavailable, nil
 	}
 	t.kills++
-	return []func(){func() { m.react(t, EvKill, nil) }}
+	return http.StatusAccepted, []func(){func() { m.react(t, EvKill, nil) }}
 }
 
 func (m *Master) reconcile(explicit []scheduler.Call_Reconcile_Task) {
@@ -796,6 +824,9 @@ func (m *Master) reconcile(explicit []scheduler.Call_Reconcile_Task) {
 	if len(explicit) == 0 {
 		// implicit: latest state of every non-terminal task of the framework
 		for _, id := range m.order {
+			if m.hiddenFromReconcile(id) { // recon_view.go: nothing is hidden unless HideFromReconcile was used
+				continue
+			}
 			if t := m.tasks[id]; !t.terminal && t.fwID == m.fwID {
 				send(t.id, t.agentID, stateOf(t), t)
 			}
@@ -890,4 +921,3 @@ func (m *Master) ForgetTerminalTasks() {
 	}
 	m.order = keep
 }
-
